@@ -617,8 +617,15 @@ where
                         )));
                     }
                     Some(content) => {
-                        // TODO check length
-                        io::copy(&mut content.take(*length), dest)?;
+                        let copied = io::copy(&mut content.take(*length), dest)?;
+                        if copied != *length {
+                            // The source ends before the announced size
+                            return Err(io::Error::new(
+                                io::ErrorKind::UnexpectedEof,
+                                "Content shorter than the announced size",
+                            )
+                            .into());
+                        }
                     }
                 }
                 Ok(())
